@@ -43,6 +43,11 @@
 //! The asset's FREE balance moves differently from its total (the equity curve is the total); a closed
 //! position's entry time lies before its exit time (cumulative realised PnL changes at the exit).
 //! Passes `scaled-*` run the curves multiplied by 0.00000001 and by 1234567.891 (relative declines are the same).
+//! Pass `fine` (second hardening round): the curve (1 000 000 000 + v) x 0.000000001000000000123 - every value has 21
+//! decimals and every decline is a few 1e-9 of its peak (a decline is a decline however small relative to the peak;
+//! values are not multiples of 1e-8). Pass `long-gaps`: the points are 1 day / 40 days apart (durations beyond
+//! 2^31 ms). Pass `zigzag`: dip / new maximum alternate (alphabet chosen from the history), so that a curve of
+//! 13 (17) points reports 6 (8) drawdowns - max and mean over more than a handful of drawdowns.
 
 use super::common::*;
 use crate::core::{Ctx, Outcome, hash_of};
@@ -79,6 +84,11 @@ const VALUES: [i64; 6] = [1, 2, 3, 4, 0, -1];
 const GAPS_MS: [i64; 2] = [1, 1000];
 /// pass "ties": gap 0 = a further point at the SAME instant as the previous one
 const TIE_GAPS_MS: [i64; 2] = [0, 1000];
+/// pass "fine": value = (FINE_OFFSET + v) x FINE_FACTOR - 21 decimals, declines of a few 1e-9 of the peak
+const FINE_OFFSET: i64 = 1_000_000_000;
+const FINE_FACTOR: &str = "0.000000001000000000123";
+/// pass "long-gaps": 1 day / 40 days between points (40 days > 2^31 ms)
+const LONG_GAPS_MS: [i64; 2] = [86_400_000, 3_456_000_000];
 /// a closed position is held for this long: its entry time differs from the time its PnL is realised
 const HOLD_MS: i64 = 7;
 /// pass 2 ("deep"): one more level, a single gap, longer curves
@@ -284,7 +294,8 @@ fn check_max_mean(
     }
     let k = reported.len() as i64;
     let depth_mean = reported.iter().map(|r| r.value).sum::<Decimal>() / Decimal::from(k);
-    let ms_sum: i64 = reported.iter().map(|r| r.duration().num_milliseconds()).sum();
+    // (the duration of a drawdown is computed here from its start and end time, not with the code under test's `Drawdown::duration`)
+    let ms_sum: i64 = reported.iter().map(|r| (r.time_end - r.time_start).num_milliseconds()).sum();
     match got_mean {
         None => out.push((format!("C18/{tag}/mean/missing"), format!("no mean drawdown, reported={reported:?}; {}", ctxt()))),
         Some(g) => {
@@ -344,8 +355,15 @@ fn check_sheet(
 pub struct M {
     values: Vec<i64>,
     gaps: Vec<i64>,
-    /// every curve value is `v * factor` (factor > 0): relative declines do not depend on it
+    /// every curve value is `(offset + v) * factor` (factor > 0): relative declines do not depend on the factor
     factor: Decimal,
+    /// added to every symbol value before scaling (0 in all passes but `fine`, where it makes the declines tiny
+    /// relative to the peak)
+    offset: i64,
+    /// pass "zigzag": the alphabet depends on the history - after a running maximum m only dips {m-1, 0}, after a
+    /// dip only the new maximum m+1 (gaps 1 ms / 1 s): every second point completes a drawdown, so a curve of 2k+1
+    /// points reports k drawdowns of different depths and durations
+    zigzag: bool,
 }
 
 /// The balance reported at point `i` of the curve: the equity is the TOTAL; the free part moves on its own
@@ -354,13 +372,13 @@ fn balance_of(total: Decimal, i: usize) -> Balance {
     Balance::new(total, total / Decimal::TWO - Decimal::from(i as i64))
 }
 
-fn points(hist: &[P], last: Option<&P>) -> Vec<(i64, DateTime<Utc>)> {
+fn points(hist: &[P], last: Option<&P>, offset: i64) -> Vec<(i64, DateTime<Utc>)> {
     let mut t = 0i64;
     hist.iter()
         .chain(last)
         .map(|p| {
             t += p.gap_ms;
-            (p.v, t_plus_ms(t))
+            (p.v + offset, t_plus_ms(t))
         })
         .collect()
 }
@@ -387,7 +405,7 @@ impl SeqModel for M {
     fn init(&self) -> St {
         St {
             t_ms: 0,
-            last_v: 0,
+            last_v: -self.offset, // the first position realises the whole first value of the curve
             diverged: false,
             dd: DrawdownGenerator::default(),
             dd_init: None,
@@ -405,10 +423,19 @@ impl SeqModel for M {
     }
 
     fn alphabet(&self, _s: &St, hist: &[P]) -> Vec<P> {
+        if self.zigzag {
+            // running maximum so far (the curve starts at 2)
+            let Some(m) = hist.iter().map(|p| p.v).max() else { return vec![P { v: 2, gap_ms: 1000 }] };
+            return if hist.last().map(|p| p.v) == Some(m) {
+                vec![P { v: m - 1, gap_ms: 1000 }, P { v: 0, gap_ms: 1000 }]
+            } else {
+                self.gaps.iter().map(|&g| P { v: m + 1, gap_ms: g }).collect()
+            };
+        }
         let mut v = Vec::new();
         for &x in &self.values {
             // the statement quantifies over curves with positive running maxima: first value > 0
-            if hist.is_empty() && x <= 0 {
+            if hist.is_empty() && x + self.offset <= 0 {
                 continue;
             }
             for &g in &self.gaps {
@@ -419,10 +446,10 @@ impl SeqModel for M {
     }
 
     fn step(&self, s: &mut St, p: &P, hist: &[P], out: &mut Vec<Viol>) {
-        let pts = points(hist, Some(p));
+        let pts = points(hist, Some(p), self.offset);
         let i = pts.len() - 1;
-        let (t, val) = (pts[i].1, Decimal::from(p.v) * self.factor);
-        let exceeds_peak = i > 0 && pts[..i].iter().all(|(v, _)| *v < p.v);
+        let (t, val) = (pts[i].1, Decimal::from(pts[i].0) * self.factor);
+        let exceeds_peak = i > 0 && pts[..i].iter().all(|(v, _)| *v < pts[i].0);
         let ctxt = || format!("curve(value x {}, ms)={:?}", self.factor, pts.iter().map(|(v, t)| (*v, (*t - t0()).num_milliseconds())).collect::<Vec<_>>());
 
         // ---- reference decomposition of the whole curve so far
@@ -538,23 +565,30 @@ impl SeqModel for M {
 fn model(label: &str) -> M {
     let f = |x: &str| <Decimal as std::str::FromStr>::from_str(x).unwrap();
     match label {
-        "ties" => M { values: VALUES.to_vec(), gaps: TIE_GAPS_MS.to_vec(), factor: Decimal::ONE },
-        "deep" => M { values: DEEP_VALUES.to_vec(), gaps: vec![1000], factor: Decimal::ONE },
-        "scaled-small" => M { values: VALUES.to_vec(), gaps: vec![1000], factor: f("0.00000001") },
-        "scaled-large" => M { values: VALUES.to_vec(), gaps: vec![1000], factor: f("1234567.891") },
-        _ => M { values: VALUES.to_vec(), gaps: GAPS_MS.to_vec(), factor: Decimal::ONE },
+        "ties" => M { values: VALUES.to_vec(), gaps: TIE_GAPS_MS.to_vec(), factor: Decimal::ONE, offset: 0, zigzag: false },
+        "deep" => M { values: DEEP_VALUES.to_vec(), gaps: vec![1000], factor: Decimal::ONE, offset: 0, zigzag: false },
+        "scaled-small" => M { values: VALUES.to_vec(), gaps: vec![1000], factor: f("0.00000001"), offset: 0, zigzag: false },
+        "scaled-large" => M { values: VALUES.to_vec(), gaps: vec![1000], factor: f("1234567.891"), offset: 0, zigzag: false },
+        "fine" => M { values: VALUES.to_vec(), gaps: vec![1000], factor: f(FINE_FACTOR), offset: FINE_OFFSET, zigzag: false },
+        "long-gaps" => M { values: VALUES.to_vec(), gaps: LONG_GAPS_MS.to_vec(), factor: Decimal::ONE, offset: 0, zigzag: false },
+        "zigzag" => M { values: vec![], gaps: GAPS_MS.to_vec(), factor: Decimal::ONE, offset: 0, zigzag: true },
+        _ => M { values: VALUES.to_vec(), gaps: GAPS_MS.to_vec(), factor: Decimal::ONE, offset: 0, zigzag: false },
     }
 }
 
 pub fn run(ctx: &Ctx) -> Outcome {
     // pass "curve": two gaps (durations vary); pass "ties": gaps 0 / 1 s (several points at one instant); pass
     // "deep": one more value level, single gap, longer curves; passes "scaled-*": the curve times 1e-8 /
-    // 1234567.891, single gap
+    // 1234567.891, single gap; pass "fine": values with 21 decimals whose declines are ~1e-9 of the peak; pass
+    // "long-gaps": points 1 day / 40 days apart
     let max_len = ctx.tier.pick(5, 7);
     let ties_len = ctx.tier.pick(5, 6);
     let deep_len = ctx.tier.pick(7, 8);
     let scaled_len = ctx.tier.pick(5, 7);
-    let passes = [("curve", max_len), ("ties", ties_len), ("deep", deep_len), ("scaled-small", scaled_len), ("scaled-large", scaled_len)];
+    let long_len = ctx.tier.pick(4, 6);
+    // 2k+1 points = k completed drawdowns: 6 quick, 8 thorough
+    let zigzag_len = ctx.tier.pick(13, 17);
+    let passes = [("curve", max_len), ("ties", ties_len), ("deep", deep_len), ("scaled-small", scaled_len), ("scaled-large", scaled_len), ("fine", scaled_len), ("long-gaps", long_len), ("zigzag", zigzag_len)];
     let mut per_pass = Vec::new();
     let (mut sequences, mut steps, mut distinct) = (0u64, 0u64, 0usize);
     for (label, len) in passes {
@@ -583,6 +617,11 @@ pub fn run(ctx: &Ctx) -> Outcome {
             "gaps_ms": GAPS_MS,
             "ties_gaps_ms": TIE_GAPS_MS,
             "scale_factors": ["1", "0.00000001", "1234567.891"],
+            "fine_pass": {"value": format!("({FINE_OFFSET} + v) x {FINE_FACTOR}"), "max_len": scaled_len},
+            "long_gaps_ms": LONG_GAPS_MS,
+            "long_gaps_max_len": long_len,
+            "zigzag_max_len": zigzag_len,
+            "zigzag_drawdowns_reported": (zigzag_len - 1) / 2,
             "rule": "every timed curve of <= max_len points (first value > 0, non-decreasing times) fed to the real DrawdownGenerator (default start, init start, and one polled with generate() in place) + Max/Mean generators (default and init start), AssetState::update_from_balance -> TearSheetAssetGenerator (default start and init(first balance); free balance != total) and TearSheetGenerator::update_from_position (entry time != exit time); after every point: update()'s return, generate(), max, mean and the tear sheets compared with the record-high decomposition of the curve",
             "samples": [
                 {"seq": [{"v":2,"gap_ms":1},{"v":1,"gap_ms":1000},{"v":2,"gap_ms":1},{"v":3,"gap_ms":1000}], "note": "recovery exactly to the peak does not end the drawdown; it ends at 3"},
@@ -593,6 +632,7 @@ pub fn run(ctx: &Ctx) -> Outcome {
         }),
         assumptions: vec![
             "curves have a positive first value (hence positive running maxima) and non-decreasing times; later values may be <= 0".into(),
+            "a decline is a decline however small relative to its peak (pass fine: ~1e-9) and whatever the number of decimals of the values; durations up to months (pass long-gaps)".into(),
             "a curve is its SEQUENCE of points: a point at the same instant as the previous one is a further point (AssetState applies a balance snapshot with an equal timestamp)".into(),
             "the end time of an unfinished (current) drawdown is not specified by the statement and is not checked".into(),
             "a point equal to the running maximum does not set a new maximum ('the next point that exceeds it')".into(),
